@@ -47,9 +47,7 @@ abbrev WalkRes := Except Nat (List Nat × Nat × Nat × List Nat)
 def walkViaWalk (fromH : Nat) (names : List SafeName) (getattr : Bool) : M WalkRes := do
   match ← call fromH "Walk" [] [] names with
   | .ok is _ _ =>
-    let s1 ← getS
-    let h := s1.nextHandle
-    modS fun s => { s with nextHandle := s.nextHandle + 1 }
+    let h ← newHandle
     if getattr then
       match ← call h "GetAttr" [attrMaskAll] with
       | .ok as _ _ => return .ok (is, h, as.getD 3 0, as.drop 4)
@@ -65,11 +63,9 @@ def walkViaWalk (fromH : Nat) (names : List SafeName) (getattr : Bool) : M WalkR
 def walkOne (fromH : Nat) (names : List SafeName) (getattr : Bool) : M WalkRes := do
   if names.length > 1 then return .error EINVAL      -- "We require exactly zero or one elements."
   let result ← (if getattr then do
-      let s0 ← getS
       match ← call fromH "WalkGetAttr" [] [] names with
       | .ok is _ _ =>
-        let h := s0.nextHandle
-        modS fun s => { s with nextHandle := s.nextHandle + 1 }
+        let h ← newHandle
         let nq := (is.length - 19) / 3
         return .ok (is.take (3 * nq), h, is.getD (3 * nq) 0, is.drop (3 * nq + 1))
       | .err e => if e == ENOSYS then walkViaWalk fromH names getattr else return .error e
@@ -118,14 +114,14 @@ def doWalk (ref : Nat) (rawNames : List Bytes) (getattr : Bool) : M WalkRes := d
     | .error e => return .error e
     | .ok (_, h, valid, attr) =>
       let nr ← newRef { file := h, mode := x.mode, node := x.node, parent := x.parent }
-      match x.parent with
-      | some p =>
-        if !(← isDeleted nr) then
+      whenSome x.parent (fun p => do
+        let del ← isDeleted nr
+        (if !del then do
           let px ← getRef p
           let nm ← nameFor px.node ref
           addChild px.node nr nm
-        incRef p
-      | none => pure ()
+         else pure () : M Unit)
+        incRef p)
       incRef nr
       return .ok ([], nr, valid, attr)
   else
@@ -142,13 +138,11 @@ def hTattach (m : Msg) : M Reply := do
   -- fid afid uname aname n_uname
   if m.int 1 != NOFID then return rerr EINVAL
   let aname := if (m.str 3).head? == some 0x2f then (m.str 3).drop 1 else m.str 3
-  let s0 ← getS
   match ← call 0 "Attach" with
   | .err e => return rerr e
   | .panic => return rerr EIO
   | .ok _ _ _ =>
-    let h := s0.nextHandle
-    modS fun s => { s with nextHandle := s.nextHandle + 1 }
+    let h ← newHandle
     match ← call h "GetAttr" [attrMaskAll] with
     | .err e => let _ ← callClose h; return rerr e
     | .panic => return rerr EIO
@@ -212,13 +206,11 @@ def hCreate (m : Msg) (uid : Nat) (rtyp : Nat) : M Reply := do
     | some e => return rerr e
     | none =>
       let x ← getRef ref
-      let s0 ← getS
       match ← call x.file "Create" [m.int 2, m.int 3 % 4096, uid, m.int 4] [] [name] with
       | .err e => return rerr e
       | .panic => return rerr EIO
       | .ok is _ _ =>
-        let h := s0.nextHandle
-        modS fun s => { s with nextHandle := s.nextHandle + 1 }
+        let h ← newHandle
         let cn ← pathNodeFor x.node name
         let nr ← newRef { file := h, mode := ModeReg, opened := true, openFlags := m.int 2, node := cn, parent := some ref }
         addChild x.node nr name
@@ -429,7 +421,7 @@ def hTxattrwalk (m : Msg) : M Reply :=
   withFid (m.int 0) fun ref => do
     let x ← getRef ref
     if ← isDeleted ref then return rerr EINVAL
-    let r ← if (m.str 2).length > 0 then call x.file "GetXattr" [] [m.str 2] else call x.file "ListXattrs"
+    let r ← (if (m.str 2).length > 0 then call x.file "GetXattr" [] [m.str 2] else call x.file "ListXattrs" : M Res)
     match r with
     | .err e => return rerr e
     | .panic => return rerr EIO
@@ -437,13 +429,11 @@ def hTxattrwalk (m : Msg) : M Reply :=
       let buf := if (m.str 2).length > 0 then ss.getD 0 [] else (if ss.isEmpty then [0] else joinNul ss)
       if buf.length > maxLen then return rerr EINVAL
       -- after the D2 `fix:`: the xattr fid gets a File of its own (a clone)
-      let s0 ← getS
       match ← call x.file "Walk" [] [] [] with
       | .err e => return rerr e
       | .panic => return rerr EIO
       | .ok _ _ _ =>
-        let h := s0.nextHandle
-        modS fun s => { s with nextHandle := s.nextHandle + 1 }
+        let h ← newHandle
         let nr ← newRef { file := h, mode := 0, node := x.node,
                           x := { op := 2, name := m.str 2, size := buf.length, buf := buf } }
         insertFid (m.int 1) nr
@@ -500,8 +490,8 @@ def clunkXattr (fid : Nat) : M Nat := do
       let x ← getRef ref
       if x.x.op == 1 then
         if x.x.buf.length != x.x.size then return EINVAL
-        let r ← if x.x.flags == 2 && x.x.size == 0 then call x.file "RemoveXattr" [] [x.x.name]
-                else call x.file "SetXattr" [x.x.flags] [x.x.name, x.x.buf]
+        let r ← (if x.x.flags == 2 && x.x.size == 0 then call x.file "RemoveXattr" [] [x.x.name]
+                else call x.file "SetXattr" [x.x.flags] [x.x.name, x.x.buf] : M Res)
         match r with
         | .err e => return e
         | _ => return 0
